@@ -10,6 +10,7 @@
 //!   when the input is not UTF-8; random chunking of the reader).
 //! * `tsfault <cfg> <schema> <kind> <k> <calls> <hex> => faulty|clean` — a reader that delivers `doc[..k]` and then fails
 //!   with `kind` forever, against the same reader ending cleanly after `k` bytes (C13); items also `IO:<kind>`.
+//! * `tspfx <cfg> <src> <schema> <calls> <hex> => h_0/h_1/…/h_n` — the history over EVERY prefix of the input (C10).
 #![allow(dead_code)]
 use crate::common::*;
 use crate::gen::{chunk_sizes, mutate};
@@ -243,10 +244,42 @@ pub fn run_c13(sink: &mut Sink, thorough: bool, seed: u64) {
     }
 }
 
+pub fn emit_tspfx(sink: &mut Sink, cfg: &str, s: &Schema, se: &str, src: &str, b: &[u8], calls: usize, sizes: Vec<usize>, tag: &str) {
+    if src == "str" && std::str::from_utf8(b).is_err() { return; }
+    let hs: Vec<String> = (0..=b.len()).map(|k| history(s, src, &b[..k], calls, sizes.clone())).collect();
+    let full = hs.last().cloned().unwrap_or_default();
+    sink.case("tspfx", &[cfg, src, se, &calls.to_string(), &hexf(b)], &hs.join("/"), &format!("tspfx:{}:{}:{}:{}v:{}", tag, skind(s), src, nvals(&full), hclass(&full)), b.len() > 1);
+}
+
+/// C10: whole histories over every prefix of streams that yield values
+pub fn run_c10(sink: &mut Sink, thorough: bool, seed: u64) {
+    let mut r = Rng::new(seed ^ 0x7473_3130);
+    let cfg = cfg_tag();
+    for (n, (se, t)) in crafted().into_iter().enumerate() {
+        if !thorough && n % 3 != (seed % 3) as usize { continue; }
+        let s = dec_schema(se);
+        if !history(&s, "slice", t.as_bytes(), 1, vec![]).starts_with("OK:") { continue; }
+        let src = *r.pick(&["str", "slice", "reader"]);
+        emit_tspfx(sink, &cfg, &s, se, src, t.as_bytes(), 6, chunk_sizes(&mut r), "crafted");
+    }
+    // the inherent exception through a typed stream: a prefix that is a complete out-of-range float literal (known finding)
+    let big = format!("1{}e-395 2", "0".repeat(400));
+    for se in ["d", "g", "a"] { emit_tspfx(sink, &cfg, &dec_schema(se), se, "slice", big.as_bytes(), 3, vec![], "corpus-range"); }
+    for i in 0..budget(thorough, 300, 3000) {
+        let s = stream_schema(&mut r, i);
+        let se = enc_schema(&s);
+        let (b, k) = gen_tstream(&s, &mut r);
+        if b.len() > 120 { continue; }
+        let src = *r.pick(&["str", "slice", "reader"]);
+        emit_tspfx(sink, &cfg, &s, &se, src, &b, k + 2, chunk_sizes(&mut r), "concat");
+    }
+}
+
 pub fn replay(sink: &mut Sink, toks: &[&str]) {
     let cfg = cfg_tag();
     let mut r = Rng::new(1);
     match toks[0] {
+        "tspfx" if toks.len() >= 6 => { let s = dec_schema(toks[3]); emit_tspfx(sink, &cfg, &s, toks[3], toks[2], &unhex(toks[5]), toks[4].parse().unwrap_or(4), vec![3], "replay"); }
         "tstream" if toks.len() >= 6 => {
             let s = dec_schema(toks[3]); let b = unhex(toks[5]); let calls: usize = toks[4].parse().unwrap_or(4);
             let o = history(&s, toks[2], &b, calls, vec![3]);
